@@ -3,6 +3,7 @@ package props
 // C08 — One SSO request, one outcome; rejected requests leave no trace.
 
 import (
+	"sync"
 	"context"
 	"fmt"
 	"strings"
@@ -70,6 +71,15 @@ func runSSO(c SSOCase) (*ssoRun, error) {
 		w.Store.Before = func(_ context.Context, op string) string {
 			if op == "CreateAuthRequest" {
 				cancel()
+			}
+			return ""
+		}
+		defer func() { w.Store.Before = nil }()
+	}
+	if c.PersistDelayMs > 0 && !c.GoneAtPersist {
+		w.Store.Before = func(_ context.Context, op string) string {
+			if op == "CreateAuthRequest" {
+				time.Sleep(time.Duration(c.PersistDelayMs) * time.Millisecond)
 			}
 			return ""
 		}
@@ -492,5 +502,49 @@ func TestC08(t *testing.T) {
 		nt, fp, classes := c08Classify(c, r)
 		col.Case(nt, fp, classes, func() any { return ssoSample(c, r) })
 		return c08Oracle(c, r)
+	})
+}
+
+// TestC08SlowPersist: a request that is valid when it arrives and for a few seconds more, and a storage that takes longer than
+// that to persist it. Whatever the IdP decides, it decides once: persisted and sent on to the login, or refused and not persisted.
+func TestC08SlowPersist(t *testing.T) {
+	col := ev.For("C08", "exploration", c08Rule)
+	runPlain(t, col, "TestC08", func(fail func(*ev.Violation, any)) {
+		var wg sync.WaitGroup
+		var mu sync.Mutex
+		k := 0
+		for _, binding := range []string{"post", "redirect"} {
+			for _, cond := range []string{"notonorafter+4s", "window-1h+4s", "none"} {
+				k++
+				wg.Add(1)
+				go func(k int, binding, cond string) {
+					defer wg.Done()
+					spec := stdSpec()
+					c := SSOCase{Spec: spec, Host: defHost, SP: 0, Req: spsim.NewAuthnReq(fmt.Sprintf("_slowpersist-%d", k), spec.SPs[0].EntityID), Style: plainStyle,
+						Tr: spsim.Transport{Binding: binding, Plus: true, Encoding: A, RelayState: "rs"}, PersistDelayMs: 5500}
+					switch cond {
+					case "notonorafter+4s":
+						c.Req.Conditions = &spsim.Conditions{NotBefore: A, NotOnOrAfter: spsim.Rel(4, 3, "")}
+					case "window-1h+4s":
+						c.Req.Conditions = &spsim.Conditions{NotBefore: spsim.Rel(-3600, 0, ""), NotOnOrAfter: spsim.Rel(4, 0, "")}
+					}
+					r, err := runSSO(c)
+					if err != nil {
+						panic("harness: " + err.Error())
+					}
+					vs := c08Oracle(c, r)
+					mu.Lock()
+					defer mu.Unlock()
+					okCalls, _ := createCalls(r.W)
+					col.Case(cond != "none", ev.Fingerprint("slow-persist", binding, cond), []string{"slow-persist", fmt.Sprintf("slow-persist/persisted=%d/status=%d", len(okCalls), r.Rep.Status)}, func() any {
+						return map[string]any{"binding": binding, "conditions": cond, "persist_delay_ms": 5500, "persisted": len(okCalls), "status": r.Rep.Status}
+					})
+					for _, v := range vs {
+						fail(v, c)
+					}
+				}(k, binding, cond)
+			}
+		}
+		wg.Wait()
 	})
 }
